@@ -155,6 +155,12 @@ func (link *ToxicLink) write(
 			Int64("bytes", bytes).
 			Err(err).
 			Msg("Could not write to destination")
+		// Nothing reads the output of the last stub any more. Keep draining it until it
+		// is closed, so that the stubs and the goroutine copying from the source are not
+		// left blocked on a send for ever.
+		go func() {
+			_, _ = io.Copy(io.Discard, link.output)
+		}()
 	} else if server.Metrics.proxyMetricsEnabled() {
 		server.Metrics.ProxyMetrics.SentBytesTotal.
 			WithLabelValues(metricLabels...).Add(float64(bytes))
